@@ -150,10 +150,18 @@ structure ReqLive where
   h2ConnectExt : Bool := false
 deriving Repr, DecidableEq
 
-/-- request_st: all modelled fields (grouped by what the reset functions do with them; the
-    functions below and in Model/Server.lean take and return the whole record) -/
-structure ReqSt extends ReqLive, ReqKept, ReqStale
+/-- the fields at least one of the two reset functions restores -/
+structure ReqCore extends ReqLive, ReqKept
 deriving Repr, DecidableEq
+
+/-- request_st: all modelled fields, grouped by what the reset functions do with them.
+    Functions that only look at / change `ReqCore` fields are written over `ReqCore` and applied
+    to the request with `ReqSt.onCore`. -/
+structure ReqSt extends ReqCore, ReqStale
+deriving Repr, DecidableEq
+
+/-- apply a function that only concerns the core fields -/
+def ReqSt.onCore (s : ReqSt) (f : ReqCore → ReqCore) : ReqSt := { s with toReqCore := f s.toReqCore }
 
 /-- static facts of the server a request object is created for -/
 structure SrvEnv where
@@ -197,26 +205,26 @@ def hupdate (a : HList) (id : HId) (k : Bytes) (f : Bytes → Bytes) : HList :=
 def tokenAppend (old v : Bytes) : Bytes := if old.isEmpty then v else old ++ [44, sp] ++ v
 
 /-- http_header_response_set() -/
-def respSet (s : ReqSt) (id : HId) (k v : Bytes) : ReqSt :=
+def respSet (s : ReqCore) (id : HId) (k v : Bytes) : ReqCore :=
   { s with respHtags := if v.isEmpty then (if id > 0 then bclr s.respHtags id else s.respHtags)
                         else bset s.respHtags id,
            respHeaders := hupdate s.respHeaders id k (fun _ => v) }
 
 /-- http_header_response_unset() -/
-def respUnset (s : ReqSt) (id : HId) (k : Bytes) : ReqSt :=
+def respUnset (s : ReqCore) (id : HId) (k : Bytes) : ReqCore :=
   if btst s.respHtags id then
     { s with respHtags := if id > 0 then bclr s.respHtags id else s.respHtags,
              respHeaders := hupdate s.respHeaders id k (fun _ => []) }
   else s
 
 /-- http_header_response_append() -/
-def respAppend (s : ReqSt) (id : HId) (k v : Bytes) : ReqSt :=
+def respAppend (s : ReqCore) (id : HId) (k v : Bytes) : ReqCore :=
   if v.isEmpty then s else
   { s with respHtags := bset s.respHtags id,
            respHeaders := hupdate s.respHeaders id k (fun old => tokenAppend old v) }
 
 /-- http_header_response_insert(): a repeated field goes on a new line inside the value -/
-def respInsert (s : ReqSt) (id : HId) (k v : Bytes) : ReqSt :=
+def respInsert (s : ReqCore) (id : HId) (k v : Bytes) : ReqCore :=
   if v.isEmpty then s else
   let h2 := s.version ≥ 2
   let rep := (hfind s.respHeaders id k).any (fun old => !old.isEmpty)
@@ -227,7 +235,7 @@ def respInsert (s : ReqSt) (id : HId) (k v : Bytes) : ReqSt :=
              else old ++ [cr, lf] ++ (if h2 then k.map toLower else k) ++ [colon, sp] ++ v) }
 
 /-- http_header_response_get() -/
-def respGet (s : ReqSt) (id : HId) (k : Bytes) : Option Bytes :=
+def respGet (s : ReqCore) (id : HId) (k : Bytes) : Option Bytes :=
   if btst s.respHtags id then
     match hfind s.respHeaders id k with
     | some v => if v.isEmpty then none else some v
@@ -235,13 +243,13 @@ def respGet (s : ReqSt) (id : HId) (k : Bytes) : Option Bytes :=
   else none
 
 /-- http_header_request_set() -/
-def rqstSet (s : ReqSt) (id : HId) (k v : Bytes) : ReqSt :=
+def rqstSet (s : ReqCore) (id : HId) (k v : Bytes) : ReqCore :=
   { s with rqstHtags := if v.isEmpty then (if id > 0 then bclr s.rqstHtags id else s.rqstHtags)
                         else bset s.rqstHtags id,
            rqstHeaders := hupdate s.rqstHeaders id k (fun _ => v) }
 
 /-- http_header_request_get() -/
-def rqstGet (s : ReqSt) (id : HId) (k : Bytes) : Option Bytes :=
+def rqstGet (s : ReqCore) (id : HId) (k : Bytes) : Option Bytes :=
   if btst s.rqstHtags id then
     match hfind s.rqstHeaders id k with
     | some v => if v.isEmpty then none else some v
@@ -249,7 +257,7 @@ def rqstGet (s : ReqSt) (id : HId) (k : Bytes) : Option Bytes :=
   else none
 
 /-- http_header_env_set() (env entries carry no id) -/
-def envSet (s : ReqSt) (k v : Bytes) : ReqSt :=
+def envSet (s : ReqCore) (k v : Bytes) : ReqCore :=
   { s with env := hupdate s.env 0 k (fun _ => v) }
 
 /-! ### the recycling functions -/
@@ -261,7 +269,7 @@ structure HdrIds where
 deriving Repr, DecidableEq
 
 /-- http_response_body_clear() -/
-def bodyClear (h : HdrIds) (s : ReqSt) (preserveLength : Bool) : ReqSt :=
+def bodyClear (h : HdrIds) (s : ReqCore) (preserveLength : Bool) : ReqCore :=
   let s := { s with respBodyFinished := false, respBodyStarted := false, respSendChunked := false,
                     respBodyScratchpad := -1 }
   let s := if btst s.respHtags h.transferEncoding then
@@ -285,15 +293,15 @@ def responseReset (h : HdrIds) (s : ReqSt) : ReqSt :=
            else s
   let s := { s with respHtags := [], respHeaderLen := 0, respHeaderRepeated := false,
                     respHeaders := hreset s.respHeaders }
-  bodyClear h s false
+  s.onCore (bodyClear h · false)
 
 /-- plugins_call_handle_request_reset(): every module that keeps per-request state in
     r->plugin_ctx[id] clears its slot in its handle_request_reset hook -/
-def pluginsReset (s : ReqSt) : ReqSt := { s with pluginCtx := s.pluginCtx.map fun _ => none }
+def pluginsReset (s : ReqCore) : ReqCore := { s with pluginCtx := s.pluginCtx.map fun _ => none }
 
 /-- request_reset() -/
 def requestReset (h : HdrIds) (e : SrvEnv) (s : ReqSt) : ReqSt :=
-  let s := pluginsReset s
+  let s := s.onCore pluginsReset
   let s := responseReset h s
   { s with
     loopsPerRequest := 0, keepAlive := 0,
